@@ -870,7 +870,20 @@ func main() {
 	for k := 0; k < lib.Count(1, 3); k++ {
 		phs = append(phs, genPoisonHier(rp, k))
 	}
+	// the classes of lineage.go (several certificates for one CA name on a path; path-length
+	// constraints): a stream of their own as well
+	rl := mrand.New(mrand.NewSource(lib.Seed() ^ 0x6c696e65616765))
+	var ths, lhs []*hier
+	for k := 0; k < lib.Count(3, 4); k++ {
+		ths = append(ths, genTwinHier(rl, k))
+	}
+	for k := 0; k < lib.Count(1, 2); k++ {
+		lhs = append(lhs, genPathLenHier(rl, k))
+	}
 	header := coqImports
+	for _, H := range append(append([]*hier{}, ths...), lhs...) {
+		header += H.u.coqDef()
+	}
 	for _, P := range phs {
 		header += P.H.u.coqDef()
 	}
@@ -1048,6 +1061,50 @@ func main() {
 			emitValidate(P.H, k.sub, o, "trailing")
 			emitHTTP(P.H, k.sub, o, k.pre)
 		}
+	}
+	// the classes of lineage.go
+	lineage := func(H *hier, class string, nPerturb int) {
+		all := opts{Roots: H.trustCf[1], Now: tHTTP}
+		for _, leaf := range H.leaves {
+			for _, p := range H.paths[leaf] {
+				for cut := 0; cut < 2 && cut < len(p); cut++ {
+					s := sub{clone(p[:len(p)-cut]), class + ":" + []string{"as-issued", "root-absent"}[cut]}
+					tags := []string{class, "honest"}
+					if class == "pathlen" {
+						tags = append(tags, pathLenTags(H, p, s.chain)...)
+					}
+					emitValidate(H, s, all, tags...)
+					emitHTTP(H, s, all, false)
+					emitHTTP(H, s, all, true)
+				}
+			}
+		}
+		for _, t := range H.target {
+			s := sub{clone(t.chain), t.kind}
+			o := opts{Roots: t.roots, Now: tHTTP}
+			emitValidate(H, s, o, class, "targeted")
+			emitHTTP(H, s, o, false)
+			emitHTTP(H, s, o, true)
+		}
+		for k := 0; k < nPerturb; k++ {
+			s := perturb(rl, H)
+			s.kind = class + ":" + s.kind
+			na := tNew
+			if len(s.chain) > 0 && s.chain[0] >= 0 {
+				na = H.u.ents[s.chain[0]].Cert.NotAfter
+			}
+			if k%3 != 2 {
+				emitValidate(H, s, genOpts(rl, H, na), class)
+			} else {
+				emitHTTP(H, s, genHTTPOpts(rl, H, na), rl.Intn(2) == 0)
+			}
+		}
+	}
+	for _, H := range ths {
+		lineage(H, "twins", lib.Count(45, 100))
+	}
+	for _, H := range lhs {
+		lineage(H, "pathlen", lib.Count(45, 100))
 	}
 	w.Close()
 	fmt.Printf("c02: wrote %d cases (%d hierarchies, %d instances)\n", w.Len(), len(hs), len(envs))
